@@ -537,7 +537,7 @@ impl Parser {
 
         let lexem = self.next_lexem();
         let mut result = match lexem {
-            Some(Lexem::Operator(s)) if s.as_str() == "between" => {
+            Some(Lexem::Operator(s)) if s.to_lowercase() == "between" => {
                 let left_between = self.parse_add_sub()?;
 
                 let and_lexem = self.next_lexem();
